@@ -18,6 +18,7 @@ package main
 
 import (
 	acme "github.com/squadracorsepolito/acmelib"
+	"verif/vinv"
 )
 
 func op(name string, a ...int64) Op { return Op{Name: name, A: a} }
@@ -383,49 +384,77 @@ func badArgs(p *Pool, o Op) bool {
 	return false
 }
 
-// sharedFollower: the call changes the size of a signal that sits in a multiplexer and, in some
-// group that holds it, a signal behind it is held by >= 2 groups or is fixed (evaluated before the
-// call). This is the shape of the open finding D35 of the C01/C07 stream: modifySignalSize moves
-// the followers once per group although their relative position is shared by the groups.
+// sharedFollower: the value-based classifier of the open finding D35 of the C01/C07 stream
+// (vinv.SharedFollowerMoved), evaluated on the live objects before the call: the call changes the
+// size of a signal that sits in a multiplexer and the change moves a follower held by >= 2 groups
+// (fixed = all groups). For enum edits every enum signal referencing the enum is asked with
+// amount = new enum size - old enum size.
 func sharedFollower(p *Pool, o Op) bool {
-	var affected []acme.Signal
-	switch o.Name {
-	case "StdSetType", "EnumSetEnum":
-		if s := p.sig(o.A[0]); s != nil {
-			affected = append(affected, s)
+	bitlen := func(v int) int {
+		n := 0
+		for v > 0 {
+			n++
+			v >>= 1
 		}
-	case "EnumAddValue", "EnumRemoveValue", "EnumRemoveAllValues":
-		if e := p.enum(o.A[0]); e != nil {
-			for _, r := range e.References() {
-				affected = append(affected, r)
+		if n == 0 {
+			n = 1
+		}
+		return n
+	}
+	enumSize := func(e *acme.SignalEnum, maxIdx int) int {
+		sz := bitlen(maxIdx)
+		if e.MinSize() > sz {
+			sz = e.MinSize()
+		}
+		return sz
+	}
+	enumEdit := func(e *acme.SignalEnum, newMax int) bool {
+		amount := enumSize(e, newMax) - e.GetSize()
+		for _, r := range e.References() {
+			if vinv.SharedFollowerMoved(r, amount) {
+				return true
 			}
+		}
+		return false
+	}
+	maxOf := func(e *acme.SignalEnum, skip *acme.SignalEnumValue, extra int) int {
+		m := extra
+		for _, v := range e.Values() {
+			if v != skip && v.Index() > m {
+				m = v.Index()
+			}
+		}
+		if m < 0 {
+			m = 0
+		}
+		return m
+	}
+	switch o.Name {
+	case "StdSetType":
+		if s, t := p.sig(o.A[0]), p.typ(o.A[1]); s != nil && t != nil {
+			return vinv.SharedFollowerMoved(s, t.Size()-s.GetSize())
+		}
+	case "EnumSetEnum":
+		if s, e := p.sig(o.A[0]), p.enum(o.A[1]); s != nil && e != nil {
+			return vinv.SharedFollowerMoved(s, e.GetSize()-s.GetSize())
+		}
+	case "EnumAddValue":
+		if e, v := p.enum(o.A[0]), p.eval(o.A[1]); e != nil && v != nil {
+			return enumEdit(e, maxOf(e, nil, v.Index()))
+		}
+	case "EnumRemoveValue":
+		if e := p.enum(o.A[0]); e != nil {
+			if ent := p.get(o.A[1]); ent != nil && ent.Eval != nil {
+				return enumEdit(e, maxOf(e, ent.Eval, 0))
+			}
+		}
+	case "EnumRemoveAllValues":
+		if e := p.enum(o.A[0]); e != nil {
+			return enumEdit(e, 0)
 		}
 	case "EvalUpdateIndex":
 		if v := p.eval(o.A[0]); v != nil && v.ParentEnum() != nil {
-			for _, r := range v.ParentEnum().References() {
-				affected = append(affected, r)
-			}
-		}
-	default:
-		return false
-	}
-	for _, s := range affected {
-		mx := s.ParentMultiplexerSignal()
-		if mx == nil {
-			continue
-		}
-		fixed, gids := mx.VerifFixedSignals(), mx.VerifSignalGroupIDs()
-		for _, grp := range mx.GetSignalGroups() {
-			seen := false
-			for _, x := range grp {
-				if x.EntityID() == s.EntityID() {
-					seen = true
-					continue
-				}
-				if seen && (fixed[x.EntityID()] || len(gids[x.EntityID()]) >= 2) {
-					return true
-				}
-			}
+			return enumEdit(v.ParentEnum(), maxOf(v.ParentEnum(), v, int(o.A[1])))
 		}
 	}
 	return false
